@@ -13,6 +13,7 @@ import (
 
 	"com.tuntun.rangers/node/src/common"
 	crypto "com.tuntun.rangers/node/src/eth_crypto"
+	"com.tuntun.rangers/node/src/vm"
 
 	"verifharness/mon"
 )
@@ -642,6 +643,7 @@ func generate(r *mon.Run, cfg string, emit func(*Case)) {
 	genStackFill(cfg, add)
 	genFaults(add)
 	genStaticChains(r, add)
+	genBigCreate(add)
 
 	// (d) precompiles
 	genPrecompiles(r, cfg, add)
@@ -1090,6 +1092,34 @@ func genStackFill(cfg string, add func(Case)) {
 	}
 	b.pushU(0).pushU(0).pushU(0).pushU(0).pushU(0).op(opADDRESS, opGAS, opCALL)
 	add(Case{Fam: "stackfill", Tag: "full+CALL", Code: b.bytes(), Gas: 2000000})
+}
+
+// creations around vm.MaxCodeSize: init code = SSTORE(1,1); LOG0; RETURN(0,size),
+// endowed with 1 wei. 2e10 gas pays for the 1 MiB expansion and for the code
+// deposit of MaxCodeSize bytes even at x30 prices.
+func genBigCreate(add func(Case)) {
+	const gas = uint64(20000000000)
+	max := uint64(vm.MaxCodeSize)
+	for _, size := range []uint64{max - 1, max, max + 1, max + 32, 2 * max, 1 << 20} {
+		init := (&asm{}).pushU(1).pushU(1).op(opSSTORE).pushU(0).pushU(0).op(0xa0).pushU(size).pushU(0).op(opRETURN).bytes()
+		for _, value := range []string{"", "1"} {
+			add(Case{Fam: "bigcreate", Tag: fmt.Sprintf("top/%d", size), Kind: "create", Code: init, Gas: gas, Value: value, Expect: fmt.Sprintf("bigcreate:top:%d", size)})
+			for _, op := range []byte{opCREATE, opCREATE2} {
+				a := (&asm{}).calldataToMem()
+				mode := "create"
+				if op == opCREATE2 {
+					a.pushU(0x2a)
+					mode = "create2"
+				}
+				v := uint64(0)
+				if value != "" {
+					v = 1
+				}
+				a.op(opCALLDATASIZE).pushU(0).pushU(v).op(op).returnTop()
+				add(Case{Fam: "bigcreate", Tag: fmt.Sprintf("%s/%d", opName(op), size), Code: a.bytes(), Input: init, Gas: gas, Expect: fmt.Sprintf("bigcreate:%s:%d", mode, size)})
+			}
+		}
+	}
 }
 
 var (
